@@ -1,7 +1,8 @@
 (* C03 — responses echo the request header and question.
    [handle_message] is the model of Server::handle_message (Model/Server.v); [answer] (query
    answering, C05) and [verify] (TSIG HMAC verification, C10/C11) are universally quantified. *)
-From QV Require Import Model.ZoneTree Model.Query Model.MsgWriter Model.QueryW Proofs.ServerEchoWP.
+From QV Require Import Model.ZoneTree Model.Query Model.MsgWriter Spec.MsgWriterS Proofs.MsgWriterNameP Model.QueryW Proofs.ServerEchoWP
+  Proofs.ServerPlainP.
 From QV Require Import Base.ListX Model.NameWire Model.Reader Model.RdataLite Model.Server
   Spec.NameWireS Spec.NameRepr Spec.ReaderS Spec.MsgWalkS Proofs.ReaderP Proofs.ServerP Proofs.ServerEchoP.
 
@@ -81,6 +82,29 @@ Theorem c03_question_echo_octets : forall answer verify cfg req w q, wf_cfg cfg 
        r_cursor r1 <= len /\ slice b 12 (r_cursor r1) = slice req 12 (r_cursor r1)).
 Proof. exact handle_message_echo. Qed.
 
+(* The header at the byte level, for the responses that do not come from query answering (REFUSED, NOTIMP
+   for the special QTYPEs / QCLASS ANY, SERVFAIL): [respond_plain] is a run of the Writer operation language
+   of C12 (respond_plain_run), so C12's message-level round trip applies: the INDEPENDENT RFC 1035 decoder of
+   Spec/MsgWriterS.v, applied to the finished octets, returns the ID, QR = 1, opcode 0, AA = TC = 0, RD as
+   given, RA = 0, Z = 0, the RCODE, exactly one question (the given name modulo ASCII case here; octet for
+   octet by c03_writer_keeps_question), no answer/authority records, and — iff an EDNS size was given —
+   exactly one OPT: owner root, class = that size, TTL field 0 (no extended-RCODE bits, version 0). *)
+Theorem c03_plain_response_decodes : forall buf tcp id rd qname qt qc edns limit rcode len b,
+  (id < 65536)%N -> wf_name qname -> length (nm_wire qname) <= 255 -> (qt < 65536)%N -> (qc < 65536)%N ->
+  (rcode < 16)%N -> (forall sz, edns = Some sz -> (sz < 65536)%N) ->
+  respond_plain buf tcp id rd qname qt qc edns limit rcode = Some (len, b) ->
+  exists m, decode_msg (firstn len b) = Some m /\
+    m_id m = id /\ N.testbit (m_flags2 m) 7 = true /\ ((m_flags2 m / 8) mod 16 = 0)%N /\
+    N.testbit (m_flags2 m) 2 = false /\ N.testbit (m_flags2 m) 1 = false /\ N.testbit (m_flags2 m) 0 = rd /\
+    N.testbit (m_flags3 m) 7 = false /\ ((m_flags3 m / 16) mod 8 = 0)%N /\ (m_flags3 m mod 16 = rcode)%N /\
+    (exists d, m_qs m = [d] /\ map (map lower) qname = map (map lower) (dq_name d) /\ dq_type d = qt /\ dq_class d = qc) /\
+    m_an m = [] /\ m_ns m = [] /\
+    match edns with
+    | None => m_ar m = []
+    | Some sz => exists d, m_ar m = [d] /\ dr_owner d = [] /\ dr_type d = 41%N /\ dr_class d = sz /\ dr_ttl d = 0%N
+    end.
+Proof. exact respond_plain_decodes. Qed.
+
 (* Non-vacuity: wWw.a. IN A, mixed case, REFUSED: the 11 question octets come back unchanged *)
 Example c03_echo_example :
   let req := [18;52; 1;0; 0;1; 0;0; 0;0; 0;0; 3;119;87;119;1;97;0; 0;1; 0;1]%N in
@@ -100,3 +124,4 @@ Print Assumptions c03_question_is_spec.
 Print Assumptions c03_question_octets.
 Print Assumptions c03_writer_keeps_question.
 Print Assumptions c03_question_echo_octets.
+Print Assumptions c03_plain_response_decodes.
